@@ -68,6 +68,13 @@ pub fn streams(thorough: bool) -> Vec<(String, Vec<u8>)> {
         v.push(("rpc-getport2-2frag".into(), apprpc::with_fragments(&body, &[10])));
         v.push(("rpc-getport2-3frag".into(), apprpc::with_fragments(&body, &[4, 30])));
     }
+    // streams whose leading bytes complete no signature, followed by a complete valid request: never
+    // answered, wherever the stream is cut
+    for (n, head) in [("unknown-verb", &b"PROPFIND / HTTP/1.1\r\n\r\n"[..]), ("nine-bytes", &b"123456789"[..]), ("ff", &[0xffu8; 12][..])] {
+        let mut s = head.to_vec();
+        s.extend_from_slice(b"GET / HTTP/1.1\r\n\r\n");
+        v.push((format!("dead-then-http-{}", n), s));
+    }
     // AUTH_UNIX-sized credentials and a verifier
     {
         let cred: Vec<u8> = (0..20).map(|k| 0x41 + k as u8).collect();
